@@ -170,7 +170,8 @@ def build_model():
 
 
 def cargo_build(profile):
-    """profile in {rel, chk}: release, release + overflow checks; hooks on.  -> (ok, path or log)"""
+    """profile in {rel, chk, nostd}: release, release + overflow checks, release with the library's `std` feature off
+    (the harness binary itself still links std); hooks on.  -> (ok, path or log)"""
     hd = os.path.join(ROOT, "harness")
     lock_src = os.path.join(REPO, "Cargo.lock")
     lock_dst = os.path.join(hd, "Cargo.lock")
@@ -178,7 +179,7 @@ def cargo_build(profile):
         open(lock_dst, "w").write(open(lock_src).read())
     flags = HOOK_CFG + (" -C overflow-checks=on" if profile == "chk" else "")
     tdir = os.path.join(CACHE, "target-" + profile)
-    rc, out, err = sh("cargo build --release --offline", cwd=hd, timeout=1800,
+    rc, out, err = sh("cargo build --release --offline" + (" --no-default-features" if profile == "nostd" else ""), cwd=hd, timeout=1800,
                       env={"RUSTFLAGS": flags, "CARGO_TARGET_DIR": tdir, "CARGO_NET_OFFLINE": "true"})
     if rc != 0:
         return False, (out + err)[-4000:]
